@@ -2,6 +2,22 @@
 //! proptest (Vec<u8>), libFuzzer (&[u8]) and the delta-debugging shrinker all
 //! work on the same representation. 0 is always the simplest alternative.
 
+use std::cell::Cell;
+
+/// Version of the decoding rules. Saved cases carry the version they were found with, so that
+/// later extensions of the generators (which consume extra choices) do not change the meaning
+/// of the regression replays. 1 = first release; 2 = sibling subscriptions next to a
+/// self-disallowing handler, writer closures that give up their Var handle, Var<Var> ...
+pub const LATEST_DECODER: u32 = 2;
+thread_local! { static DECODER: Cell<u32> = Cell::new(LATEST_DECODER); }
+pub fn set_decoder_version(v: u32) {
+    DECODER.with(|d| d.set(v));
+}
+/// decoder version in force
+pub fn dv() -> u32 {
+    DECODER.with(|d| d.get())
+}
+
 pub struct Choices<'a> {
     data: &'a [u8],
     pos: usize,
